@@ -564,6 +564,16 @@ class Problem:
             raise Inconclusive("non-zero residual (%d terms) but solver answered %s near the sampled point" % (r["residual_terms"], res))
 
     def _solve_sign(self, g, conv, zr, rnd, allvars, r):
+        ca = conv.canon(g.a)
+        if isinstance(ca, S.Sym) and ca.op == "fn" and ca.args[0] == "abs" and g.kind == "nonneg":
+            # |x| is modelled by its defining axioms  a >= 0, a*a == x*x ; the query  a < 0  is then unsat
+            s = z3.SolverFor("QF_NRA")
+            a_, x_ = z3.Real("abs!v"), z3.Real("abs!arg")
+            s.add(a_ >= 0, a_ * a_ == x_ * x_, a_ < 0)
+            if str(s.check()) != "unsat":
+                raise Inconclusive("abs axioms")
+            r["verdict"] = "unsat"
+            return
         fa = conv.convert(g.a)
         want = "nonneg" if g.kind == "nonneg" else "pos"
         t1 = time.time()
